@@ -12,7 +12,7 @@
 (* relative to the mount point, %p the absolute path, %h the directory of  *)
 (* the relative path, %H the mount point; times print as epoch seconds.    *)
 (***************************************************************************)
-EXTENDS Ast, SchemeEval
+EXTENDS Ast, Scope
 
 ListIsAnd == TRUE
 
